@@ -532,6 +532,20 @@ func c04Case(r *mon.Run, jr *rand.Rand, key *world.Key, cred *world.Cred, kss *k
 			st.best = gap
 		}
 	}
+	// the implied randomisers of different hidden attributes of one proof are independent draws: two equal ones give away the
+	// difference of the two hidden values ((s_i - s_j)/c = m_i - m_j) to anybody who reads the proof
+	{
+		seen := map[string]int{}
+		for _, i := range sortedKeys(proof.AResponses) {
+			rr := sub(proof.AResponses[i], mul(proof.C, cred.NormLedger(i))).String()
+			if j, dup := seen[rr]; dup {
+				fail("C04/hidden-values-related", fmt.Sprintf("hidden attributes %d and %d were blinded with the same randomiser: their difference can be read from the proof", j, i), map[string]any{"indices": []int{j, i}, "proof_json": string(doc)})
+				break
+			}
+			seen[rr] = i
+		}
+		r.Add("proofs_checked_for_related_randomisers", 1)
+	}
 	if r.Evals()%900 < 3 {
 		r.Sample(map[string]any{"case": desc, "disclosed": gotD, "hidden": gotH, "json_bytes": len(doc)})
 	}
